@@ -23,6 +23,8 @@ def sp(kind):
             s = world.make_sp(TMP[0], want_response_signed=False, want_assertions_signed=True, enc=('spXenc2', 'spXenc1'))
         elif kind == 'twokeys-wr':
             s = world.make_sp(TMP[0], want_response_signed=True, enc=('spXenc2', 'spXenc1'))
+        elif kind == 'wr@1.3':
+            s = world.make_sp(TMP[0], want_response_signed=True)
         elif kind == 'twocerts':
             s = world.make_sp(TMP[0], [world.idp_md(keys=(('idpA2', 'signing'), ('idpA', 'signing')))], want_response_signed=True)
         _c[('sp', kind)] = s
@@ -31,6 +33,12 @@ def sp(kind):
 
 def idp(kind='plain'):
     if ('idp', kind) not in _c:
+        if kind == 'sp-without-encryption-cert':
+            _c[('idp', kind)] = world.make_idp(TMP[0], [world.sp_md(keys=(('spX', 'signing'),))])
+            return _c[('idp', kind)]
+        if kind == 'plain@1.3':
+            _c[('idp', kind)] = world.make_idp(TMP[0], [world.sp_md()])
+            return _c[('idp', kind)]
         if kind == 'want-signed':
             _c[('idp', kind)] = world.make_idp(TMP[0], [world.sp_md()], want_authn_requests_signed=True)
         elif kind == 'only-valid-cert':
@@ -166,6 +174,42 @@ def op_metadata(signed_ok, via='store'):
     return f
 
 
+def with_version(v, fn):
+    def f():
+        xmlsec.VERSION[0] = v
+        try:
+            return fn()
+        finally:
+            xmlsec.VERSION[0] = '1.2.28'
+    return f
+
+
+def op_other_response(how):
+    """Other entry points that sign or encrypt what they return."""
+    def f():
+        from saml2_tophat import saml, samlp
+        try:
+            if how == 'error-response':
+                r = idp().create_error_response('req1', ACS_POST, (samlp.STATUS_RESPONDER, 'sorry'), sign=True)
+            elif how == 'logout-response':
+                lr = samlp.logout_request_from_string(forge.request(env.BASE, kind='LogoutRequest', dest=world.SLO_A))
+                r = idp().create_logout_response(lr, [world.BINDING_SOAP], sign=True)
+            elif how == 'attribute-response':
+                r = idp().create_attribute_response({'givenName': [MARK[1]]}, 'req1', ACS_POST, SP_X, sign_response=True,
+                                                    name_id=saml.NameID(text=MARK[0], format=saml.NAMEID_FORMAT_TRANSIENT))
+            elif how == 'encrypt-with-request-certificate':
+                r = idp('sp-without-encryption-cert').create_authn_response(
+                    {'givenName': [MARK[1]], 'mail': ['x@example.org']}, 'req1', ACS_POST, SP_X,
+                    name_id=saml.NameID(text=MARK[0], format=saml.NAMEID_FORMAT_TRANSIENT), authn={'class_ref': forge.PASSWORD},
+                    encrypt_assertion=True, encrypt_cert_assertion=world.cert_b64('spXenc2'))
+            elif how == 'logout-request':
+                rid, r = sp('wr').create_logout_request(world.SLO_A, world.IDP_A, name_id=saml.NameID(text='x', format=saml.NAMEID_FORMAT_TRANSIENT), sign=True)
+            return {'returned': True, 'text': str(r), 'exc': None}
+        except Exception as e:
+            return {'returned': False, 'exc': type(e).__name__, 'text': None}
+    return f
+
+
 OPS = {}
 
 
@@ -194,6 +238,15 @@ def build_ops():
     OPS['create:encrypt'] = ('protect', op_create_response(encrypt_assertion=True), {'enc': True})
     OPS['create:sign+encrypt'] = ('protect', op_create_response(sign_assertion=True, encrypt_assertion=True, sign_response=True), {'resp': True, 'enc': True})
     OPS['create:authn_request'] = ('protect', op_create_request(), {'req': True})
+    OPS['create:error_response(sign)'] = ('protect', op_other_response('error-response'), {'resp': True})
+    OPS['create:logout_response(sign)'] = ('protect', op_other_response('logout-response'), {'resp': True})
+    OPS['create:attribute_response(sign_response)'] = ('protect', op_other_response('attribute-response'), {'resp': True})
+    OPS['create:logout_request(sign)'] = ('protect', op_other_response('logout-request'), {'req': True})
+    OPS['create:encrypt-with-request-certificate'] = ('protect', op_other_response('encrypt-with-request-certificate'), {'enc': True})
+    # a tool that reports version 1.3 (verdict lines read 'Verification status: ...'): messages that do not verify
+    OPS['parse:wr:resp-signed-BAD@tool-1.3'] = ('verify', with_version('1.3.4', op_parse('wr@1.3', 'resp-signed-BAD')), False)
+    OPS['request:plain:req-signed-BAD@tool-1.3'] = ('verify', with_version('1.3.4', op_request('plain@1.3', 'req-signed-BAD')), False)
+    OPS['metadata:signed-BAD@tool-1.3'] = ('verify', with_version('1.3.4', op_metadata(False)), False)
     return OPS
 
 
@@ -342,7 +395,7 @@ def run(ctx):
         'level': 'fault_enumeration',
         'coverage': {
             'evaluations': len(tasks), 'distinct_nontrivial': len(nontriv), 'exhaustive': True,
-            'rule': 'for each of %d operations (SP parse of response-/assertion-/both-signed, encrypted, two metadata certificates, two decryption keys, each also with an invalid signature; IdP parse of signed/unsigned requests with and without want_authn_requests_signed; signed metadata load; create_authn_response with sign/encrypt combinations; create_authn_request(sign)) the fault-free invocation sequence is learnt, then every fault of the %d-entry catalogue is injected at every invocation ordinal, at every invocation, and at every invocation from ordinal i on (i >= 1, including invocations a retry adds; also restricted to one command, e.g. every decryption after the first)%s; non-trivial = plans for operations that invoke the tool at least once' % (len(ops), len(faults.CATALOGUE), '; plus all pairs of (ordinal, fault)' if ctx.thorough else ''),
+            'rule': 'for each of %d operations (SP parse of response-/assertion-/both-signed, encrypted, two metadata certificates, two decryption keys, each also with an invalid signature; IdP parse of signed/unsigned requests with and without want_authn_requests_signed; signed metadata load; create_authn_response with sign/encrypt combinations, also with a per-request encryption certificate for an SP without one in metadata; create_authn_request / create_logout_request / create_error_response / create_logout_response / create_attribute_response with signing; non-verifying messages under a tool that reports version 1.3) the fault-free invocation sequence is learnt, then every fault of the %d-entry catalogue is injected at every invocation ordinal, at every invocation, and at every invocation from ordinal i on (i >= 1, including invocations a retry adds; also restricted to one command, e.g. every decryption after the first)%s; non-trivial = plans for operations that invoke the tool at least once' % (len(ops), len(faults.CATALOGUE), '; plus all pairs of (ordinal, fault)' if ctx.thorough else ''),
             'samples': [{'op': tasks[i][0], 'plan': tasks[i][1], 'outcome': res[i]} for i in (0, len(tasks) // 2, len(tasks) - 1)],
             'operations': sorted(ops), 'invocation_sequences': inv, 'fault_catalogue': faults.CATALOGUE,
             'distinct_outcomes': len(hist), 'outcome_histogram': hist,
